@@ -101,6 +101,16 @@ func (d *dagAPI) AddMany(ctx context.Context, nds []ipld.Node) error {
 	return nil
 }
 
+// offlineCtxKey marks a request whose block misses are answered at once with not-found (an
+// application reading its own store back from disk without waiting for the network), while
+// the node's other activity - replication - keeps fetching normally.
+type offlineCtxKey struct{}
+
+// WithOfflineReads returns a context under which block misses are not fetched.
+func WithOfflineReads(ctx context.Context) context.Context {
+	return context.WithValue(ctx, offlineCtxKey{}, true)
+}
+
 func decodeBlock(c cid.Cid, data []byte) (ipld.Node, error) {
 	blk, err := blocks.NewBlockWithCid(data, c)
 	if err != nil {
@@ -133,7 +143,7 @@ func (d *dagAPI) Get(ctx context.Context, c cid.Cid) (ipld.Node, error) {
 		return decodeBlock(c, data)
 	}
 	// (slowLocal: reading a local block takes a kernel step too, like a slow disk)
-	if !have && (w.Offline || d.inc.offline) {
+	if !have && (w.Offline || d.inc.offline || ctx.Value(offlineCtxKey{}) != nil) {
 		w.mu.Unlock()
 		return nil, ipld.ErrNotFound{Cid: c}
 	}
